@@ -191,6 +191,17 @@ def gen_spec(rng: random.Random, *, for_fit: bool = True, small: bool = False) -
         mcs.append("mc_osc")
         feats.append("oscillation")
 
+    if irf_kind is not None and rng.random() < 0.12:
+        model["megacomplex"]["mc_pfid"] = {
+            "type": "pfid",
+            "labels": ["pfid1"],
+            "frequencies": ["pfid.freq"],
+            "rates": ["pfid.rate"],
+        }
+        params["pfid"] = [["freq", _r(rng, 620.0, 680.0, 1), {"vary": False}], ["rate", -_r(rng, 0.3, 2.0), {"vary": False}]]
+        mcs.append("mc_pfid")
+        feats.append("pfid")
+
     # ---- datasets --------------------------------------------------------
     n_t = rng.randint(8, 16) if small else rng.randint(10, 40)
     n_l = rng.randint(3, 5) if small else rng.randint(3, 10)
@@ -289,9 +300,34 @@ def gen_spec(rng: random.Random, *, for_fit: bool = True, small: bool = False) -
             model["dataset"][label]["megacomplex"] = ["mc_decay"]
             model["dataset"][label]["global_megacomplex"] = ["mc_spec"]
             model["dataset"][label].pop("megacomplex_scale", None)
-        for m in ("mc_base", "mc_coh", "mc_osc"):
+        for m in ("mc_base", "mc_coh", "mc_osc", "mc_pfid"):
             model["megacomplex"].pop(m, None)
         feats.append("fullmodel")
+
+    # ---- clp guide: an extra one-row dataset pinning the spectrum of the first compartment -----------
+    if (
+        not full_model
+        and not two_groups
+        and axis_mode == "same"
+        and link_mode in ("auto", "true")
+        and rng.random() < 0.12
+    ):
+        model["megacomplex"]["mc_guide"] = {"type": "clp-guide", "dimension": "time", "target": comps[0]}
+        model["dataset"]["guide"] = {"megacomplex": ["mc_guide"]}
+        groups["default"]["link_clp"] = True
+        first = data[sorted(data)[0]]
+        data["guide"] = {
+            "time": [0.0],
+            "spectral": list(first["spectral"]),
+            "seed": rng.randrange(2**31),
+            "rates": [0.0],
+            "center": -1.0,
+            "noise": 0.0,
+            "amp": first["amp"],
+            "layout": "time-spectral",
+            "weight": None,
+        }
+        feats.append("clpguide")
 
     # ---- weights ---------------------------------------------------------
     wmode = rng.choice(["none", "none", "dataset", "model"])
@@ -341,7 +377,8 @@ def gen_spec(rng: random.Random, *, for_fit: bool = True, small: bool = False) -
         "optimization_method": method,
         "maximum_number_function_evaluations": rng.choice([3, 5, 8, 12]) if for_fit else 3,
         "clp_link_tolerance": tol,
-        "clp_link_method": rng.choice(["nearest", "backward", "forward"]),
+        # 'forward' on identical axes raises AlignDatasetError on this tree (C09 territory): keep it for shifted axes
+        "clp_link_method": rng.choice(["nearest", "backward", "forward"] if tol > 0 else ["nearest", "backward", "nearest"]),
         "add_svd": rng.random() < 0.3,
         "ftol": 1e-8,
         "gtol": 1e-8,
